@@ -264,11 +264,11 @@ def ordinal_view(im):
 
     return {
         "per": [r[2:] for r in instr],
-        "edges": sorted(((name(s), s.endswith("L")), name(d), round(w, 9)) for (s, d), w in im["edges"].items()),
+        "edges": sorted((((name(s), s.endswith("L")), name(d), round(w, 9)) for (s, d), w in im["edges"].items()), key=repr),
         "cptotal": im["cptotal"],
         "cpmarks": [(name(l), v) for l, v in im["cpmarks"]],
-        "lcd": sorted((tuple(name(l) for l in k), round(lat, 9), [(name(l), round(v, 9)) for l, v in mem])
-                      for k, lat, mem, _ in im["lcd"]),
+        "lcd": sorted(((tuple(name(l) for l in k), round(lat, 9), [(name(l), round(v, 9)) for l, v in mem])
+                       for k, lat, mem, _ in im["lcd"]), key=repr),
         "lcdfig": im["lcdfig"],
         "lcdmarks": [(name(l), v) for l, v in im["lcdmarks"]],
         "colsums": im["colsums"],
